@@ -73,7 +73,7 @@ func Forall(lo, hi int, f func(k int) bool) bool {
 
 // CallCountWith: number of matching calls whose i-th argument is v (and, for
 // CallCountWith2, whose j-th argument is w as well).
-func CallCountWith[T any](s string, i int, v T) int                  { return 0 }
+func CallCountWith[T any](s string, i int, v T) int                 { return 0 }
 func CallCountWith2[T, U any](s string, i int, v T, j int, w U) int { return 0 }
 
 // CalledWith reports that some call whose name contains s had argument i == v.
